@@ -1,5 +1,5 @@
-"""stream o_c10: N bytes of well-formed cnf / btor2 lines generated on the fly, streamed with various chunk and
-read sizes; peak live heap must stay below 8*chunk + 16*item + 64 KiB whatever N is."""
+"""stream o_c10: N bytes of well-formed cnf / btor2 lines (also: comment lines only, a direct reader user, a line
+declaring a huge count) generated on the fly, streamed with various chunk and read sizes; peak live heap must stay below 8*chunk + 16*item + 64 KiB whatever N is."""
 def gen(rng, n, tier, **kw):
     big = 4000000 if tier == "thorough" else 150000
     out = []
@@ -8,6 +8,13 @@ def gen(rng, n, tier, **kw):
             for item in (20, 300, 5000):
                 lines = max(50, (big if chunk > 8 else big // 20) // item)
                 out.append("o_c10 %s %d %d %d %d" % (parser, lines, chunk, rs, item))
+    # comment-only preambles, a direct reader user that sets the mark once, a line declaring a huge count
+    for chunk, rs in ((16384, 16384), (64, 7), (1, 1), (4096, 1 << 20)):
+        for item in (20, 300):
+            lines = max(50, (big * 4 if chunk > 8 else big // 10) // item)
+            out.append("o_c10 cnfc %d %d %d %d" % (lines, chunk, rs, item))
+            out.append("o_c10 rdr %d %d %d %d" % (lines, chunk, rs, item))
+        out.append("o_c10 btor2j 1 %d %d 23" % (chunk, rs))
     return out
 def category(case):
     t = case.split(); return "%s/chunk%s" % (t[1], t[3])
